@@ -31,6 +31,8 @@ import (
 
 	"github.com/icon-project/goloop/common"
 	"github.com/icon-project/goloop/common/db"
+	"github.com/icon-project/goloop/module"
+	"github.com/icon-project/goloop/service/scoreapi"
 	"github.com/icon-project/goloop/verifshim/ev"
 )
 
@@ -52,8 +54,10 @@ func (o c14Op) String() string {
 		return fmt.Sprintf("set(%c,k%d,%q)", 'a'+o.X, o.Key+1, c14Vals[o.V])
 	case "del":
 		return fmt.Sprintf("del(%c,k%d)", 'a'+o.X, o.Key+1)
-	case "init", "touch":
+	case "init", "touch", "deploy", "accept", "wdep", "wdep1", "adddep":
 		return fmt.Sprintf("%s(%c)", o.K, 'a'+o.X)
+	case "api", "owner", "disable", "block", "sysdep", "og":
+		return fmt.Sprintf("%s(%c,%d)", o.K, 'a'+o.X, o.V)
 	case "reset", "flush", "reload", "fork":
 		return fmt.Sprintf("%s(%d)", o.K, o.I)
 	}
@@ -93,6 +97,36 @@ func c14FullAlphabet() []c14Op {
 	return ops
 }
 
+// c14ContractOps: every AccountState call that changes serialised account
+// content other than balance/storage, each as an operation of its own.
+func c14ContractOps(x int) []c14Op {
+	ops := []c14Op{
+		{K: "api", X: x, V: 1}, {K: "api", X: x, V: 2}, {K: "api", X: x, V: 0},
+		{K: "owner", X: x, V: 2}, {K: "owner", X: x, V: 1},
+		{K: "disable", X: x, V: 1}, {K: "disable", X: x, V: 0},
+		{K: "block", X: x, V: 1}, {K: "block", X: x, V: 0},
+		{K: "sysdep", X: x, V: 1}, {K: "sysdep", X: x, V: 0},
+		{K: "deploy", X: x}, {K: "accept", X: x},
+		{K: "og", X: x, V: 1}, {K: "og", X: x, V: 2}, {K: "og", X: x, V: 0},
+		{K: "adddep", X: x}, {K: "wdep", X: x}, {K: "wdep1", X: x},
+	}
+	return ops
+}
+
+// alphabet of the contract-field family: account b, with and without storage
+func c14ContractAlphabet(stashes int) []c14Op {
+	ops := []c14Op{
+		{K: "init", X: 1}, {K: "bal", X: 1, V: 1}, {K: "bal", X: 1, V: 0},
+		{K: "set", X: 1, Key: 1, V: 2}, {K: "set", X: 1, Key: 1, V: 0},
+		{K: "snap"}, {K: "clear"},
+	}
+	ops = append(ops, c14ContractOps(1)...)
+	for i := 0; i < stashes; i++ {
+		ops = append(ops, c14Op{K: "reset", I: i}, c14Op{K: "flush", I: i}, c14Op{K: "reload", I: i}, c14Op{K: "fork", I: i})
+	}
+	return ops
+}
+
 // reduced alphabet of engine B: one representative per kind of hidden-state effect
 func c14ReducedAlphabet(stashes int) []c14Op {
 	ops := []c14Op{
@@ -114,9 +148,20 @@ type c14Acct struct {
 	Bal      int
 	Vals     [2]string
 	Contract bool
+	// the other serialised account fields (exercised on contract accounts)
+	Owner                     int  // 0 none, 1 = address a (set by InitContractAccount), 2 = address b
+	Disabled, Blocked, SysDep bool // state flags
+	API                       int  // 0 none, 1, 2 : which scoreapi.Info
+	Next, Cur                 bool // next contract pending / current contract active (one code, one deploy tx)
+	Audit                     bool // current contract carries the audit tx hash
+	OGNext                    int  // object graph of the current contract: nextHash (0 = none)
+	OGData                    bool // object graph has graph data "g1"
+	Dep                       int  // deposit (v2): -1+1 encoding: 0 none, n>0 = remaining n-1
 }
 
-func (a c14Acct) empty() bool { return a.Bal == 0 && a.Vals[0] == "" && a.Vals[1] == "" && !a.Contract }
+func (a c14Acct) empty() bool {
+	return a.Bal == 0 && a.Vals[0] == "" && a.Vals[1] == "" && !a.Contract && !a.Blocked
+}
 
 type c14World [2]c14Acct
 
@@ -128,7 +173,12 @@ func (w c14World) canon() string {
 		if a.empty() {
 			continue
 		}
-		fmt.Fprintf(&sb, "%c{b=%d,k1=%q,k2=%q,c=%v}", 'a'+i, a.Bal, a.Vals[0], a.Vals[1], a.Contract)
+		fmt.Fprintf(&sb, "%c{b=%d,k1=%q,k2=%q,c=%v", 'a'+i, a.Bal, a.Vals[0], a.Vals[1], a.Contract)
+		if a.Contract || a.Blocked {
+			fmt.Fprintf(&sb, ",own=%d,dis=%v,blk=%v,sys=%v,api=%d,next=%v,cur=%v,aud=%v,og=%d/%v,dep=%d",
+				a.Owner, a.Disabled, a.Blocked, a.SysDep, a.API, a.Next, a.Cur, a.Audit, a.OGNext, a.OGData, a.Dep)
+		}
+		sb.WriteString("}")
 	}
 	return sb.String()
 }
@@ -214,9 +264,14 @@ func (in *c14Inst) apply(o c14Op) {
 		if ok == in.lm[o.X].Contract {
 			in.fail("init-contract-result", fmt.Sprintf("InitContractAccount returned %v, model contract=%v", ok, in.lm[o.X].Contract))
 		}
+		if !in.lm[o.X].Contract {
+			in.lm[o.X].Owner = 1
+		}
 		in.lm[o.X].Contract = true
 	case "touch":
 		in.live.GetAccountState(id)
+	case "api", "owner", "disable", "block", "sysdep", "deploy", "accept", "og", "adddep", "wdep", "wdep1":
+		in.applyContractOp(o)
 	case "snap":
 		in.stash = append(in.stash, c14Stash{m: in.lm, wss: in.live.GetSnapshot()})
 	case "reset":
@@ -247,7 +302,221 @@ func (in *c14Inst) apply(o c14Op) {
 	in.abs.step(o)
 }
 
+var (
+	c14Infos = []*scoreapi.Info{nil,
+		scoreapi.NewInfo([]*scoreapi.Method{{Type: scoreapi.Function, Name: "first", Flags: scoreapi.FlagExternal, Inputs: nil, Outputs: nil}}),
+		scoreapi.NewInfo([]*scoreapi.Method{{Type: scoreapi.Function, Name: "second", Flags: scoreapi.FlagExternal | scoreapi.FlagReadOnly, Inputs: nil, Outputs: nil}}),
+	}
+	c14DeployTx = []byte("deploy-tx-hash-0001")
+	c14AuditTx  = []byte("audit-tx-hash-00001")
+	c14Code     = []byte("contract code bytes")
+	c14Graph    = []byte("object graph data g1")
+)
+
+type c14DepCtx struct{}
+
+func (c14DepCtx) StepPrice() *big.Int        { return big.NewInt(1) }
+func (c14DepCtx) BlockHeight() int64         { return 10 }
+func (c14DepCtx) DepositTerm() int64         { return 0 } // deposit v2
+func (c14DepCtx) DepositIssueRate() *big.Int { return big.NewInt(0) }
+func (c14DepCtx) TransactionID() []byte      { return []byte("deposit-tx") }
+
+// applyContractOp: operations on the non-balance/non-storage fields. They are
+// applied only to an account that is a contract in the model (block: any
+// account), otherwise they are skipped on both sides, so that the model never
+// has to describe fields of an account goloop deletes as "empty".
+func (in *c14Inst) applyContractOp(o c14Op) {
+	m := &in.lm[o.X]
+	if !m.Contract && o.K != "block" {
+		return
+	}
+	as := in.live.GetAccountState(c14Addrs[o.X].ID())
+	opErr := func(err error, want bool) {
+		if (err != nil) != want {
+			in.fail("op-error/"+o.K, fmt.Sprintf("%v returned err=%v, model expects error=%v", o, err, want))
+		}
+	}
+	switch o.K {
+	case "api":
+		as.SetAPIInfo(c14Infos[o.V])
+		m.API = o.V
+	case "owner":
+		opErr(as.SetContractOwner(c14Addrs[o.V-1]), false)
+		m.Owner = o.V
+	case "disable":
+		as.SetDisable(o.V == 1)
+		m.Disabled = o.V == 1
+	case "block":
+		as.SetBlock(o.V == 1)
+		m.Blocked = o.V == 1
+	case "sysdep":
+		opErr(as.SetUseSystemDeposit(o.V == 1), false)
+		m.SysDep = o.V == 1
+	case "deploy":
+		_, err := as.DeployContract(c14Code, PythonEE, "application/zip", nil, c14DeployTx)
+		opErr(err, false)
+		m.Next = true
+	case "accept":
+		opErr(as.AcceptContract(c14DeployTx, c14AuditTx), !m.Next)
+		if m.Next {
+			m.Next, m.Cur, m.Audit = false, true, true
+		}
+	case "og":
+		if !m.Cur {
+			return // the object graph belongs to the current contract
+		}
+		var err error
+		switch o.V {
+		case 1:
+			err = as.SetObjGraph(c14DeployTx, true, 1, c14Graph)
+			m.OGNext, m.OGData = 1, true
+		case 2:
+			err = as.SetObjGraph(c14DeployTx, false, 2, nil)
+			m.OGNext = 2
+		case 0:
+			err = as.SetObjGraph(c14DeployTx, true, 0, nil)
+			m.OGNext, m.OGData = 0, false
+		}
+		opErr(err, false)
+	case "adddep":
+		if m.Dep >= 3 {
+			return // bound of the explored space: remaining deposit <= 2
+		}
+		opErr(as.AddDeposit(c14DepCtx{}, big.NewInt(1)), false)
+		if m.Dep == 0 {
+			m.Dep = 2
+		} else {
+			m.Dep++
+		}
+	case "wdep": // withdraw everything: the deposit is removed
+		_, _, err := as.WithdrawDeposit(c14DepCtx{}, nil, nil)
+		opErr(err, m.Dep == 0)
+		m.Dep = 0
+	case "wdep1": // withdraw 1: a deposit of exactly 1 stays with 0 remaining
+		_, _, err := as.WithdrawDeposit(c14DepCtx{}, nil, big.NewInt(1))
+		opErr(err, m.Dep <= 1)
+		if m.Dep > 1 {
+			m.Dep--
+		}
+	}
+}
+
+// c14Deposits reads the deposit list of any account view.
+func c14Deposits(a interface{}) depositList {
+	switch v := a.(type) {
+	case *accountSnapshotImpl:
+		return v.deposits
+	case *accountStateImpl:
+		return v.deposits
+	case *accountROState:
+		return c14Deposits(v.AccountSnapshot)
+	}
+	return nil
+}
+
+type c14ContractObs interface {
+	Status() ContractStatus
+	DeployTxHash() []byte
+	AuditTxHash() []byte
+}
+
+func c14Contracts(a interface{}) (cur, next c14ContractObs) {
+	switch v := a.(type) {
+	case AccountSnapshot:
+		if c := v.Contract(); c != nil {
+			cur = c
+		}
+		if c := v.NextContract(); c != nil {
+			next = c
+		}
+	case AccountState:
+		if c := v.Contract(); c != nil {
+			cur = c
+		}
+		if c := v.NextContract(); c != nil {
+			next = c
+		}
+	}
+	return
+}
+
+// compareContractFields compares the non-balance/non-storage fields.
+func (in *c14Inst) compareContractFields(what string, x int, a c14AcctObs, m c14Acct) {
+	ctx := fmt.Sprintf("%s account %c after %s", what, 'a'+x, in.lastOp)
+	bad := func(field, detail string) {
+		in.fail(what+"/"+field+"/after-"+in.lastOp, ctx+": "+detail)
+	}
+	if a.IsDisabled() != m.Disabled || a.IsBlocked() != m.Blocked || a.UseSystemDeposit() != m.SysDep {
+		bad("state-flags", fmt.Sprintf("disabled=%v blocked=%v sysdep=%v, model %v %v %v",
+			a.IsDisabled(), a.IsBlocked(), a.UseSystemDeposit(), m.Disabled, m.Blocked, m.SysDep))
+	}
+	owner := 0
+	if o := a.ContractOwner(); o != nil {
+		switch {
+		case o.Equal(c14Addrs[0]):
+			owner = 1
+		case o.Equal(c14Addrs[1]):
+			owner = 2
+		default:
+			owner = -1
+		}
+	}
+	if owner != m.Owner {
+		bad("contract-owner", fmt.Sprintf("owner=%v, model %d", a.ContractOwner(), m.Owner))
+	}
+	info, err := a.APIInfo()
+	api := -1
+	for i, want := range c14Infos {
+		if (info == nil && want == nil) || (info != nil && want != nil && info.Equal(want)) {
+			api = i
+		}
+	}
+	if err != nil || api != m.API {
+		bad("api-info", fmt.Sprintf("APIInfo=%v err=%v (index %d), model %d", info, err, api, m.API))
+	}
+	cur, next := c14Contracts(a)
+	if (cur != nil) != m.Cur || (next != nil) != m.Next {
+		bad("contracts", fmt.Sprintf("cur=%v next=%v, model cur=%v next=%v", cur != nil, next != nil, m.Cur, m.Next))
+	} else {
+		if cur != nil && (cur.Status() != CSActive || !bytes.Equal(cur.DeployTxHash(), c14DeployTx) || !bytes.Equal(cur.AuditTxHash(), c14AuditTx)) {
+			bad("contracts", fmt.Sprintf("current contract status=%v deploy=%q audit=%q", cur.Status(), cur.DeployTxHash(), cur.AuditTxHash()))
+		}
+		if next != nil && (next.Status() != CSPending || !bytes.Equal(next.DeployTxHash(), c14DeployTx)) {
+			bad("contracts", fmt.Sprintf("next contract status=%v deploy=%q", next.Status(), next.DeployTxHash()))
+		}
+	}
+	if m.Cur {
+		nh, gh, data, err := a.GetObjGraph(c14DeployTx, true)
+		switch {
+		case m.OGNext == 0 && !m.OGData:
+			if err == nil {
+				bad("object-graph", fmt.Sprintf("object graph present (next=%d hash=%x), model none", nh, gh))
+			}
+		case err != nil:
+			bad("object-graph", fmt.Sprintf("GetObjGraph: %v, model next=%d data=%v", err, m.OGNext, m.OGData))
+		case nh != m.OGNext || (len(gh) > 0) != m.OGData || (m.OGData && !bytes.Equal(data, c14Graph)):
+			bad("object-graph", fmt.Sprintf("next=%d hash=%x data=%q, model next=%d data=%v", nh, gh, data, m.OGNext, m.OGData))
+		}
+	}
+	dl := c14Deposits(a)
+	dep := 0
+	if len(dl) == 1 {
+		dep = int(dl[0].GetAvailableDeposit(0).Int64()) + 1
+	} else if len(dl) > 1 {
+		dep = -len(dl)
+	}
+	if dep != m.Dep {
+		bad("deposits", fmt.Sprintf("deposit encoding %d (0 none, n = remaining n-1), model %d", dep, m.Dep))
+	}
+}
+
 type c14AcctObs interface {
+	IsDisabled() bool
+	IsBlocked() bool
+	UseSystemDeposit() bool
+	ContractOwner() module.Address
+	APIInfo() (*scoreapi.Info, error)
+	GetObjGraph(hash []byte, flags bool) (int, []byte, []byte, error)
 	GetBalance() *big.Int
 	GetValue(k []byte) ([]byte, error)
 	IsContract() bool
@@ -271,6 +540,7 @@ func (in *c14Inst) compareAcct(what string, x int, a c14AcctObs, m c14Acct) {
 	if a.IsContract() != m.Contract {
 		in.fail(what+"/contract-flag/after-"+in.lastOp, fmt.Sprintf("%s: IsContract=%v, model %v", ctx, a.IsContract(), m.Contract))
 	}
+	in.compareContractFields(what, x, a, m)
 }
 
 // observeSnapshot compares every observable of a world snapshot with a model.
@@ -450,12 +720,12 @@ func c14Run(r *ev.Run, t *c14Table, hist []c14Op, maxStash int, nviol *int64) (k
 
 // c14BFS: breadth-first search with dedup on c14Inst.key(); each transition
 // re-creates the state by replaying its history on a fresh real instance.
-func c14BFS(r *ev.Run, tbl *c14Table, alpha []c14Op, maxStash, maxDepth int, nviol *int64) (states int, transitions, traces int64, depthDone int, perDepth []int, sample [][]c14Op) {
+func c14BFS(r *ev.Run, tbl *c14Table, prelude []c14Op, alpha []c14Op, maxStash, maxDepth int, nviol *int64) (states int, transitions, traces int64, depthDone int, perDepth []int, sample [][]c14Op) {
 	seen := map[string]struct{}{}
-	k0, _ := c14Run(r, tbl, nil, maxStash, nviol)
+	k0, _ := c14Run(r, tbl, prelude, maxStash, nviol)
 	traces++
 	seen[k0] = struct{}{}
-	frontier := [][]c14Op{nil}
+	frontier := [][]c14Op{prelude}
 	perDepth = []int{1}
 	for depth := 0; depth < maxDepth && len(frontier) > 0 && !r.Expired(); depth++ {
 		type res struct {
@@ -542,18 +812,23 @@ func TestVerifC14(t *testing.T) {
 	// ------------------------------------------------ engine A (two alphabets)
 	type bfsCfg struct {
 		name     string
+		prelude  []c14Op
 		alpha    []c14Op
 		maxStash int
 		depth    int
 	}
 	bfsCfgs := []bfsCfg{
-		{"full", c14FullAlphabet(), c14MaxStash, r.Pick(4, 5)},
-		{"reduced", c14ReducedAlphabet(2), 2, r.Pick(8, 40)}, // fixpoint at depth 23
+		{"full", nil, c14FullAlphabet(), c14MaxStash, r.Pick(4, 5)},
+		// contract-field family: account b is a contract without storage / with one storage entry
+		{"contract_nostore", []c14Op{{K: "init", X: 1}}, c14ContractAlphabet(1), 1, r.Pick(4, 5)},
+		{"contract_store", []c14Op{{K: "init", X: 1}, {K: "set", X: 1, Key: 1, V: 2}}, c14ContractAlphabet(1), 1, r.Pick(4, 5)},
+		{"contract_deployed", []c14Op{{K: "init", X: 1}, {K: "deploy", X: 1}, {K: "accept", X: 1}}, c14ContractAlphabet(1), 1, r.Pick(4, 5)},
+		{"reduced", nil, c14ReducedAlphabet(2), 2, r.Pick(8, 40)}, // fixpoint at depth 23
 	}
 	statesA := 0
 	allDepthsDone := true
 	for _, bc := range bfsCfgs {
-		st, tr, tc, depthDone, perDepth, sample := c14BFS(r, tbl, bc.alpha, bc.maxStash, bc.depth, &nviol)
+		st, tr, tc, depthDone, perDepth, sample := c14BFS(r, tbl, bc.prelude, bc.alpha, bc.maxStash, bc.depth, &nviol)
 		statesA += st
 		transitions += tr
 		traces += tc
